@@ -32,6 +32,32 @@ fn all_true(a: &symcc::Asserts) -> Option<bool> {
     Some(all)
 }
 
+fn lit_uids(e: &E, acc: &mut Vec<Uid>) {
+    if let E::Ent(u) = e {
+        acc.push(u.clone());
+    }
+    e.for_children(&mut |c| lit_uids(c, acc));
+}
+
+/// fingerprint prefix for a case: "missing-entity:" when the environment has a dangling reference
+/// or a policy names an entity literal that has no record in the store (finding F4)
+fn mp_of(env_mp: &'static str, pols: &[&Pol], store: &Store, sch: &Schema) -> &'static str {
+    if !env_mp.is_empty() {
+        return env_mp;
+    }
+    let mut lits = Vec::new();
+    for p in pols {
+        for c in p.conjuncts() {
+            lit_uids(&c, &mut lits);
+        }
+    }
+    if lits.iter().all(|u| store.ents.contains_key(u) || u.ty == "Action" || sch.ent(&u.ty).map(|d| d.enum_ids.is_some()).unwrap_or(false)) {
+        ""
+    } else {
+        "missing-entity:"
+    }
+}
+
 fn tn(s: &str) -> cedar_policy::EntityTypeName {
     cedar_policy::EntityTypeName::from_str(s).unwrap()
 }
@@ -137,12 +163,13 @@ pub fn run(tier: Tier, replay_file: Option<&str>) -> i32 {
             let text = pol.text(&st);
             let rep = |x: serde_json::Value| json!({"policy": text, "request": format!("{:?}", en.req), "store": serde_json::to_value(&en.store).unwrap(), "detail": x});
             let head = crate::c02::head(&pol.conds[0].1);
+            let mp = mp_of(en.mp, &[pol], &en.store, &sch);
             let comp = ctx.guard("compile", || rep(json!({})), || symcc::CompiledPolicy::compile_with_custom_symenv(cp, &en.renv, &schema, symenv.clone()));
             l.transitions += 1;
             let comp = match comp {
                 Some(Ok(c)) => c,
                 Some(Err(e)) => {
-                    ctx.violation(en.mp.to_string() + &format!("compile:failed:{head}"), format!("compiling a strictly valid policy failed: {e}: `{text}` env {:?}", en.req), rep(json!({})));
+                    ctx.violation(mp.to_string() + &format!("compile:failed:{head}"), format!("compiling a strictly valid policy failed: {e}: `{text}` env {:?}", en.req), rep(json!({})));
                     compiled.push(None);
                     continue;
                 }
@@ -162,11 +189,11 @@ pub fn run(tier: Tier, replay_file: Option<&str>) -> i32 {
             for (name, got, refuted_expected) in checks {
                 l.transitions += 1;
                 match got {
-                    None => ctx.violation(en.mp.to_string() + &format!("{name}:not-constant:{head}"), format!("{name} asserts do not reduce to constants on a literal environment: `{text}` env {:?}", en.req), rep(json!({}))),
+                    None => ctx.violation(mp.to_string() + &format!("{name}:not-constant:{head}"), format!("{name} asserts do not reduce to constants on a literal environment: `{text}` env {:?}", en.req), rep(json!({}))),
                     Some(refuted) => {
                         if refuted != refuted_expected {
                             ctx.violation(
-                                en.mp.to_string() + &format!("{name}:disagrees:{head}"),
+                                mp.to_string() + &format!("{name}:disagrees:{head}"),
                                 format!("{name}: asserts say refuted={refuted} but concrete evaluation gives {outcome:?} (expected refuted={refuted_expected}): `{text}` env {:?}", en.req),
                                 rep(json!({})),
                             );
@@ -182,6 +209,7 @@ pub fn run(tier: Tier, replay_file: Option<&str>) -> i32 {
             for d in [1usize, 7] {
                 let j = (i + d) % n;
                 let (Some(a), Some(b_)) = (&compiled[i], &compiled[j]) else { continue };
+                let mp2 = mp_of(en.mp, &[&pols[i].0, &pols[j].0], &en.store, &sch);
                 let sa = matches!(ev.evaluate(pols[i].1.as_ref()), Ok(true));
                 let sb = matches!(ev.evaluate(pols[j].1.as_ref()), Ok(true));
                 let rep = || json!({"policy1": pols[i].0.text(&st), "policy2": pols[j].0.text(&st), "request": format!("{:?}", en.req), "store": serde_json::to_value(&en.store).unwrap()});
@@ -194,10 +222,10 @@ pub fn run(tier: Tier, replay_file: Option<&str>) -> i32 {
                 for (name, got, exp) in checks {
                     l.transitions += 1;
                     match got {
-                        None => ctx.violation(en.mp.to_string() + &format!("{name}:not-constant"), format!("{name} asserts are not constants"), rep()),
+                        None => ctx.violation(mp2.to_string() + &format!("{name}:not-constant"), format!("{name} asserts are not constants"), rep()),
                         Some(g) => {
                             if g != exp {
-                                ctx.violation(en.mp.to_string() + &format!("{name}:disagrees"), format!("{name}: asserts refuted={g}, concrete matches are {sa}/{sb} (expected refuted={exp})"), rep());
+                                ctx.violation(mp2.to_string() + &format!("{name}:disagrees"), format!("{name}: asserts refuted={g}, concrete matches are {sa}/{sb} (expected refuted={exp})"), rep());
                             }
                         }
                     }
@@ -221,6 +249,7 @@ pub fn run(tier: Tier, replay_file: Option<&str>) -> i32 {
         let mut comp: Vec<Option<(symcc::CompiledPolicySet, bool)>> = Vec::new();
         for (pols_, pset) in psets.iter().map(|x| (&x.0, &x.1)) {
             let text: Vec<String> = pols_.iter().map(|p| p.text(&st)).collect();
+            let mp3 = mp_of(en.mp, &pols_.iter().collect::<Vec<_>>(), &en.store, &sch);
             let rep = || json!({"policies": text, "request": format!("{:?}", en.req), "store": serde_json::to_value(&en.store).unwrap()});
             let c = ctx.guard("compile set", || rep(), || symcc::CompiledPolicySet::compile_with_custom_symenv(pset, &en.renv, &schema, symenv.clone()));
             l.transitions += 1;
@@ -231,10 +260,10 @@ pub fn run(tier: Tier, replay_file: Option<&str>) -> i32 {
                     for (name, got, exp) in [("always_allows", all_true(symcc::always_allows_asserts(&c).asserts()), !allow), ("always_denies", all_true(symcc::always_denies_asserts(&c).asserts()), allow)] {
                         l.transitions += 1;
                         match got {
-                            None => ctx.violation(en.mp.to_string() + &format!("{name}:not-constant"), format!("{name} asserts are not constants for {text:?}"), rep()),
+                            None => ctx.violation(mp3.to_string() + &format!("{name}:not-constant"), format!("{name} asserts are not constants for {text:?}"), rep()),
                             Some(g) => {
                                 if g != exp {
-                                    ctx.violation(en.mp.to_string() + &format!("{name}:disagrees"), format!("{name}: asserts refuted={g} but the concrete decision is allow={allow}: {text:?} env {:?}", en.req), rep());
+                                    ctx.violation(mp3.to_string() + &format!("{name}:disagrees"), format!("{name}: asserts refuted={g} but the concrete decision is allow={allow}: {text:?} env {:?}", en.req), rep());
                                 }
                             }
                         }
@@ -253,6 +282,7 @@ pub fn run(tier: Tier, replay_file: Option<&str>) -> i32 {
             for d in [1usize, 3] {
                 let j = (i + d) % n;
                 let (Some((a, aa)), Some((b_, ab))) = (&comp[i], &comp[j]) else { continue };
+                let mp4 = mp_of(en.mp, &psets[i].0.iter().chain(psets[j].0.iter()).collect::<Vec<_>>(), &en.store, &sch);
                 let rep = || json!({"policies1": psets[i].0.iter().map(|p| p.text(&st)).collect::<Vec<_>>(), "policies2": psets[j].0.iter().map(|p| p.text(&st)).collect::<Vec<_>>(), "request": format!("{:?}", en.req), "store": serde_json::to_value(&en.store).unwrap()});
                 l.case(hash_of(&(ei, i, j, "setpair")), "set-pair", true);
                 for (name, got, exp) in [
@@ -262,10 +292,10 @@ pub fn run(tier: Tier, replay_file: Option<&str>) -> i32 {
                 ] {
                     l.transitions += 1;
                     match got {
-                        None => ctx.violation(en.mp.to_string() + &format!("{name}:not-constant"), format!("{name} asserts are not constants"), rep()),
+                        None => ctx.violation(mp4.to_string() + &format!("{name}:not-constant"), format!("{name} asserts are not constants"), rep()),
                         Some(g) => {
                             if g != exp {
-                                ctx.violation(en.mp.to_string() + &format!("{name}:disagrees"), format!("{name}: asserts refuted={g}, concrete decisions allow={aa}/{ab} (expected refuted={exp})"), rep());
+                                ctx.violation(mp4.to_string() + &format!("{name}:disagrees"), format!("{name}: asserts refuted={g}, concrete decisions allow={aa}/{ab} (expected refuted={exp})"), rep());
                             }
                         }
                     }
